@@ -772,7 +772,7 @@ func (e *Engine) VerifyFunc(bc *BoundContract) (rep *FuncReport) {
 	}
 	// an assert[call:F] clause that matched no call site checks nothing: the contract no longer fits the code
 	for _, as := range bc.Asserts {
-		if strings.HasPrefix(as.Clause.Name, "call:") && !u.assertHit[as.Clause] {
+		if (strings.HasPrefix(as.Clause.Name, "call:") || strings.HasPrefix(as.Clause.Name, "after:")) && !u.assertHit[as.Clause] {
 			u.addObl(&Obligation{Kind: "assert", Name: "clause matches a call site: assert[" + as.Clause.Name + "] " + strings.Join(strings.Fields(as.Clause.Text), " "), PC: c.True, Goal: c.False, Pos: e.Fset.Position(fn.Pos())})
 		}
 	}
